@@ -97,6 +97,53 @@ Proof.
 Qed.
 Print Assumptions C12_xml_doc_start_tags.
 
+(* The namespace law for PREFIXED VALUES (XmlQn.v): values of identityref / instance-identifier / xpath1.0 type are lists of
+   pieces, literal bytes or references to a module, printed with the module's OWN prefix; [open_tag st ens metas v] is the
+   namespace handling of one start tag as coded after e9b7253 (xml_print_node_open / xml_print_meta / xml_print_ns: the
+   modules of the values of the tag reserved first, definitions for value modules with LYXML_PREFIX_REQUIRED, prefixes of
+   attribute names avoiding reserved ones, definitions hidden by a nested one not reused) under the definitions [st] of
+   the ancestors - ANY definitions, hidden ones included. Hypothesis [TagAgree]: the modules the values of THIS tag refer
+   to do not need one prefix for two namespaces (true when module prefixes are pairwise distinct:
+   XmlQn.distinct_prefixes_agree; the annotation modules and the ancestors' definitions may share prefixes freely).
+   Then: no prefix is defined twice in the start tag; every module reference in the value of the node and in the values
+   of its metadata resolves, in the scope of the element, to the namespace of the module it stands for; the prefix of every
+   metadata attribute resolves to the namespace of its annotation's module. Without the hypothesis the law fails
+   (XmlQn.qn_same_prefix_clash_refuted = listed finding xml-same-prefix-value-clash). Regression Examples in XmlQn.v for
+   the shapes of the seeded changes C12-3 (qn_value_prefix_redefined) and C12-8 (qn_generated_prefix_avoids_reserved),
+   for hidden definitions and for the former finding xml-value-ns-redeclared.
+   Tie to the code: the oracle comps_doc.QNamesX checks this law on libyang's bytes with expat; XmlQn.v is not extracted and
+   not run against the library (PARTIAL in that sense: a model of the start tag only; element names, character data and
+   the byte level are those of XmlDoc.v, whose values are canonical strings). *)
+From LY Require Import XmlQn.
+
+Theorem C12_xml_value_prefixes :
+  forall st ens metas v attrs st',
+    TagAgree metas v -> open_tag st ens metas v = (attrs, st') ->
+    NoDup (sprefs (decls_of attrs)) /\
+    (forall m, In (Ref m) v -> std_prefix_ns st' (qm_prefix m) = Some (qm_ns m)) /\
+    (forall a m, In a metas -> In (Ref m) (qa_val a) -> std_prefix_ns st' (qm_prefix m) = Some (qm_ns m)) /\
+    (forall q nm val, In (PMeta q nm val) attrs ->
+       exists a, In a metas /\ nm = qa_name a /\ val = render_value (qa_val a) /\ std_prefix_ns st' q = Some (qm_ns (qa_mod a))).
+Proof. exact open_tag_law. Qed.
+Print Assumptions C12_xml_value_prefixes.
+
+(* ... for a whole element tree: the definitions of a start tag are the scope of the descendants *)
+Theorem C12_xml_value_prefixes_tree :
+  forall e st, QAgree e -> QTagsOK st e.
+Proof. exact qtags_ok. Qed.
+Print Assumptions C12_xml_value_prefixes_tree.
+
+Theorem C12_xml_value_prefixes_shared_refuted :
+  exists st ens metas v, let '(attrs, st') := open_tag st ens metas v in
+    ~ NoDup (sprefs (decls_of attrs)) /\ exists m, In (Ref m) v /\ std_prefix_ns st' (qm_prefix m) <> Some (qm_ns m).
+Proof.
+  exists [(None, ns_top)], ns_top, [], [Ref (mk_qmod b_p ns_a); Lit [47]; Ref (mk_qmod b_p ns_b)].
+  vm_compute. split.
+  - intro H. inversion H as [|? ? Hn _]; subst. apply Hn. left. reflexivity.
+  - exists (mk_qmod b_p ns_a). split; [left; reflexivity|]. vm_compute. discriminate.
+Qed.
+Print Assumptions C12_xml_value_prefixes_shared_refuted.
+
 (* the data hypothesis "distinct metadata keys on a node" cannot be dropped either: the same annotation twice on one
    node (the JSON parser accepts a repeated member, lyd_new_meta does not check) is printed as a repeated attribute *)
 Theorem C12_xml_doc_dup_meta_refuted :
